@@ -160,7 +160,7 @@ def run(ctx):
     from joserfc.jwk import KeySet, OctKey
     import time as _t
     _t0 = _t.time()
-    ok, log = ctx.prove()
+    ok, log = ctx.prove(extra_targets=["model/C01Cases.vo"])
     ctx.notes.append("prove: %.1fs" % (_t.time() - _t0)); _t0 = _t.time()
     rng = ctx.rng
     K = J.keys()
